@@ -210,6 +210,22 @@ def _readers(ctx):
                               "from the same frame",
                               "selection and None test have the wrong "
                               "polarity or use different frames", node=e)
+        # siblings: whole-file read and chunked read of one reader must
+        # agree on whether the requested order is restored by a final
+        # selection frame[columns]
+        sel = {m: "subscript" in _uses_columns(cls.methods[m], "columns")
+               for m in ("read", "get_chunked_data_iterator")}
+        ctx.check(sel["read"] == sel["get_chunked_data_iterator"],
+                  "C13a-read-and-chunks-agree", cls.methods["read"],
+                  f"{cq.rsplit('.', 1)[-1]}: read() and the chunk iterator "
+                  "both " + ("restore" if sel["read"] else "delegate")
+                  + " the requested column order",
+                  f"read() {'selects frame[columns]' if sel['read'] else 'does not select'}"
+                  " but the chunk iterator "
+                  f"{'does' if sel['get_chunked_data_iterator'] else 'does not'}"
+                  ": the two ways of reading the same table return their "
+                  "columns in different orders",
+                  node=cls.methods["get_chunked_data_iterator"].node)
         # helper methods taking the optional list
         for name, hf in cls.methods.items():
             if name in ("read", "get_chunked_data_iterator") or \
